@@ -1,12 +1,15 @@
-SPECIFICATION Spec
+SPECIFICATION XSpec
 CONSTANTS
  TypeDefs <- MCTypeDefs
- Mols <- MCMolsSmall
- Fudges <- MCFudgesSmall
+ Mols <- XMols1
+ Fudges <- XFudges
  Angles <- MCAngles
  DevImproper = FALSE
  DevPerAtom = FALSE
  DevNoFudge = FALSE
  DevOtherTemplate = FALSE
  DevCentreOther = FALSE
+INVARIANT TurnedScaled
+INVARIANT Centred
+INVARIANT ExportInv
 CHECK_DEADLOCK FALSE
